@@ -7,8 +7,14 @@ __CPROVER_thread_local W vm_tid;     /* CBMC thread == fiber / thread index */
 __CPROVER_thread_local W vm_kt;      /* kernel-thread identity the code currently runs on (selects thread-locals) */
 __CPROVER_thread_local _Bool vm_dead; /* this CBMC thread is parked for good: unwind and terminate */
 __CPROVER_thread_local int vm_spins, vm_stage;
-_Bool vm_done[VM_NTHREADS + 2], vm_eg[VM_NTHREADS + 2], vm_cand[VM_NTHREADS + 2];
-unsigned char vm_parked[VM_NTHREADS + 2]; /* 0 running, 1 parked in a blocking primitive, 2 stuck spinning */
+/* one status word per thread (a single shared cell, so that a quiescence test costs one read per other thread) */
+#define VS_RUN 0    /* running */
+#define VS_EG 1     /* spin budget exhausted: waiting for the others to become quiet, then one more iteration */
+#define VS_CAND 2   /* still spinning after that: candidate for 'stuck'; will not write shared state any more */
+#define VS_PARKED 3 /* parked in a blocking primitive (fiber kernel) */
+#define VS_STUCK 4  /* spins forever: livelock */
+#define VS_DONE 5   /* terminated normally */
+unsigned char vm_status[VM_NTHREADS + 2];
 #define VM_ASSERT(c, msg) __CPROVER_assert(c, msg)
 #define VM_FENCE() __CPROVER_fence("WRfence", "RRfence", "RWfence", "WWfence")
 #define VM_LIVE(f) __CPROVER_assert(f, "memory safety: access to a freed or out-of-scope object")
